@@ -244,14 +244,15 @@ def gen_trees(rng, quick):
     return trees + d3
 
 
-def run_tree(ctx, idx, levels, timeout=180):
+def run_tree(ctx, idx, levels, timeout=180, payload=None):
     logdir = os.path.join(ctx.tmp, "nest-%d" % idx)
     for attempt in (0, 1):
         if os.path.isdir(logdir):
             import shutil
             shutil.rmtree(logdir)
         os.makedirs(logdir)
-        cmd = [common.PY, os.path.join(common.ROOT, "harness", "impl", "c15_nest.py"), logdir, json.dumps(mk_tree(levels))]
+        cmd = [common.PY, os.path.join(common.ROOT, "harness", "impl", "c15_nest.py"), logdir,
+               json.dumps(payload if payload is not None else mk_tree(levels))]
         try:
             p = subprocess.run(cmd, env=common.impl_env(), stdout=subprocess.PIPE, stderr=subprocess.PIPE, text=True,
                                timeout=timeout)
@@ -340,6 +341,62 @@ def judge_tree(levels, run, model_chain, model_procs):
     if default and top is not None and top["eff"] > 1 and len(worker_pids) > top["eff"]:
         bad.append("default nesting multiplied worker processes: %d > outermost n_jobs %d" % (len(worker_pids), top["eff"]))
     return bad, dis, {"timeouts": timeouts, "worker_pids": len(worker_pids), "calls": len(calls), "high_water": hw_all}
+
+
+def gen_reuse(rng, quick, cpus):
+    """loky calls made one after the other in ONE process: the reusable executor is resized between them.
+    pinned: same worker environment whatever n_jobs (inner_max_num_threads=1); natural: n_jobs > cpus/2 so that
+    cpu_count() // n_jobs == 1 for all of them (the default worker environment is then identical)."""
+    seqs = [{"pin": True, "seq": [[4, 6], [2, 6]]}, {"pin": True, "seq": [[2, 4], [4, 6], [2, 6]]},
+            {"pin": True, "seq": [[3, 5], [2, 5], [3, 5]]}]
+    if cpus >= 4:
+        a = cpus // 2 + 2
+        seqs.append({"pin": False, "seq": [[a, a + 2], [a - 1, a + 2]]})
+    if not quick:
+        seqs += [{"pin": True, "seq": [[5, 7], [1, 2], [3, 7], [2, 7]]}, {"pin": True, "seq": [[2, 4], [3, 5], [4, 6], [3, 6], [2, 6]]},
+                 {"pin": False, "seq": [[4, 6], [2, 6]]}, {"pin": False, "seq": [[2, 6], [4, 6], [3, 6]]}]
+        for _ in range(6):
+            k = rng.randint(2, 4)
+            seqs.append({"pin": rng.random() < 0.8, "seq": [[n, n + 2] for n in (rng.randint(1, 6) for _ in range(k))]})
+    return seqs
+
+
+def judge_reuse(spec, run):
+    """oracle: each call runs at most ITS OWN resolved n_jobs tasks at the same time, on at most that many worker processes"""
+    bad = []
+    ev = run["events"]
+    timeouts = sum(1 for e in ev if e["e"] == "T")
+    stats = {"timeouts": timeouts, "calls": 0, "reused": sum(1 for e in ev if e["e"] == "after" and e["executor_reused"]),
+             "high_water": {}}
+    prev = None
+    for c in [e for e in ev if e["e"] == "call"]:
+        stats["calls"] += 1
+        k = int(c["path"][1:])
+        n, m = spec["seq"][k]
+        tasks = [e for e in ev if e["e"] in ("S", "E") and e["call"] == c["path"]]
+        starts = [e for e in tasks if e["e"] == "S"]
+        if len(starts) != m or len(tasks) != 2 * m:
+            bad.append("call %s: %d of %d tasks logged start/end exactly once" % (c["path"], len(starts), m))
+            continue
+        run_now = hw = 0
+        for e in tasks:
+            run_now += 1 if e["e"] == "S" else -1
+            hw = max(hw, run_now)
+        stats["high_water"][c["path"]] = hw
+        eff = c["eff"]
+        exp_eff = 1 if n == 1 else n
+        if eff != exp_eff:
+            bad.append("call %s: Parallel(n_jobs=%d) resolved to %d workers" % (c["path"], n, eff))
+        after = "" if prev is None else " right after a call with n_jobs=%d on the same executor" % prev
+        if hw > eff:
+            bad.append("loky call %s with n_jobs=%d%s: %d tasks were running at the same time" % (c["path"], eff, after, hw))
+        elif timeouts == 0 and hw != min(eff, m):
+            bad.append("loky call %s with n_jobs=%d%s: %d tasks but at most %d ever ran together" % (c["path"], eff, after, m, hw))
+        pids = {e["pid"] for e in starts}
+        if eff > 1 and len(pids) > eff:
+            bad.append("loky call %s with n_jobs=%d%s used %d worker processes" % (c["path"], eff, after, len(pids)))
+        prev = n
+    return bad, stats
 
 
 ZERO_WITNESS = {"mode": "eff", "kind": "mp", "cpus": 4, "n": 0, "daemon": False, "depth": 0, "main": False, "level": 1,
@@ -471,9 +528,12 @@ def run(ctx):
 
     # ---- real nested runs
     trees = gen_trees(ctx.rng, quick)
+    reuse = gen_reuse(ctx.rng, quick, real_cpus)
     import concurrent.futures as cf
     with cf.ThreadPoolExecutor(6) as ex:
+        fut_reuse = [ex.submit(run_tree, ctx, 5000 + i, None, 180, sp) for i, sp in enumerate(reuse)]
         runs = list(ex.map(lambda it: run_tree(ctx, it[0], it[1]), list(enumerate(trees))))
+        reuse_runs = [f.result() for f in fut_reuse]
     chain_exprs = ["(chain_outcomes (top_site %d) [%s], tree_procs %d [%s])" % (
         real_cpus, "; ".join("(%s, %s)" % ("None" if l[0] is None else "Some " + KCOQ[BNAME[l[0]]], z(l[1])) for l in lv),
         real_cpus, "; ".join("(%s, %s, %d%%nat)" % ("None" if l[0] is None else "Some " + KCOQ[BNAME[l[0]]], z(l[1]), l[2]) for l in lv))
@@ -513,12 +573,48 @@ def run(ctx):
         else:
             ctx.note("nested-run anomaly not reproduced on re-run, reported as inconclusive: %s" % what)
 
+    # ---- loky executor reuse: a call after a larger (or smaller) one in the same process
+    reuse_stats = {"sequences": len(reuse), "calls": 0, "executor_reused": 0, "barrier_timeouts": 0, "inconclusive": 0}
+    reuse_confirmed = []
+    for i, (sp, rr) in enumerate(zip(reuse, reuse_runs)):
+        if "inconclusive" in rr:
+            reuse_stats["inconclusive"] += 1
+            ctx.note("reuse sequence %s inconclusive: %s" % (sp, rr["inconclusive"][:200]))
+            continue
+        bad, st = judge_reuse(sp, rr)
+        if st["timeouts"] and not bad:
+            rr = run_tree(ctx, 5500 + i, None, 180, sp)   # a barrier timeout is retried once
+            if "inconclusive" in rr:
+                reuse_stats["inconclusive"] += 1
+                continue
+            bad, st = judge_reuse(sp, rr)
+            if st["timeouts"]:
+                reuse_stats["inconclusive"] += 1
+                ctx.note("reuse sequence %s: barrier timeout twice, reported as inconclusive" % sp)
+        reuse_stats["calls"] += st["calls"]
+        reuse_stats["executor_reused"] += st["reused"]
+        reuse_stats["barrier_timeouts"] += st["timeouts"]
+        if len(sp["seq"]) > 1:
+            nontrivial.add(json.dumps(sp, sort_keys=True))
+        if bad:
+            r2 = run_tree(ctx, 6000 + i, None, 180, sp)      # a sampled real run alone never decides: confirm once
+            if "inconclusive" in r2:
+                ctx.note("reuse anomaly not confirmed (re-run inconclusive): %s" % bad[0])
+                continue
+            bad2, _ = judge_reuse(sp, r2)
+            if bad2:
+                reuse_confirmed.append((bad2[0], sp))
+            else:
+                ctx.note("reuse anomaly not reproduced on re-run, reported as inconclusive: %s" % bad[0])
+
     # ---- decide
+    for what, sp in reuse_confirmed[:2]:
+        ctx.violation(what, {"kind": "oracle-loky-reuse", "case": dict(sp, mode="reuse")}, True)
     for bad, c, r in problems[:3]:
         ctx.violation(bad, {"kind": "oracle", "case": c, "impl": r}, True)
     for what, lv in confirmed[:2]:
         ctx.violation(what, {"kind": "oracle-nested-run", "case": {"mode": "nest", "levels": lv}}, True)
-    if disagreements and not problems and not confirmed:
+    if disagreements and not problems and not confirmed and not reuse_confirmed:
         hit = search_failing(ctx)
         if hit:
             ctx.violation(hit[0], {"kind": "model-disagreement+failing-input", "case": hit[1],
@@ -543,19 +639,21 @@ def run(ctx):
         ctx.note("translator tie lost, hand-model tie intact")
 
     ctx.finish({
-        "evaluations": len(eff) + len(api) + len(cpu) + nest_stats["calls"],
+        "evaluations": len(eff) + len(api) + len(cpu) + nest_stats["calls"] + reuse_stats["calls"],
         "distinct_nontrivial": len(nontrivial),
         "rule": "effective_n_jobs of the 4 backend classes for cpu_count in %s, every n in [-2*cpus, 2*cpus], plus all combinations "
                 "of daemon/_CURRENT_DEPTH/non-main thread/nesting level/mp-disabled on a value grid; joblib.effective_n_jobs under "
                 "parallel_config; cpu_count() in forked children over os.cpu_count x real affinity masks x cgroup v1/v2 quotas x "
                 "LOKY_MAX_CPU_COUNT in {unset,0,1,3,1000}; real nested runs: all 25 two-level backend combinations, %s three-level "
-                "ones, default chains. non-trivial = n <= 0 or a guard active or a cpu constraint present or a nested tree; "
+                "ones, default chains; loky REUSE sequences in one process (n_jobs a then b, b<a and b>a, same worker environment by "
+                "pinning inner_max_num_threads or by n_jobs > cpus/2), each call with more barrier-synchronised tasks than workers. non-trivial = n <= 0 or a guard active or a cpu constraint present or a nested tree; "
                 "distinct by canonical JSON" % ("{1,2,3,4,7,8,16,33,64}" if quick else "1..64", "10 sampled" if quick else "all 125"),
         "samples": [eff[len(eff) // 3], cpu[len(cpu) // 2] if cpu else None, {"mode": "nest", "levels": trees[0]}],
         "traces_validated_against_impl": n_model,
         "model_evaluations": n_model,
         "distribution": dist,
         "nested_runs": nest_stats,
+        "loky_reuse_runs": reuse_stats,
         "host_cpu_count": real_cpus,
         "disagreements": len(disagreements),
         "translator_ok": translator_ok,
@@ -577,6 +675,14 @@ def replay(ctx, path):
     if not c or "mode" not in c:
         print("replay file names a broken proof/correspondence, nothing to execute:", rep.get("kind"))
         return 1
+    if c["mode"] == "reuse":
+        rr = run_tree(ctx, 2, None, 180, {"pin": c.get("pin", False), "seq": c["seq"]})
+        if "inconclusive" in rr:
+            print("replay inconclusive:", rr["inconclusive"])
+            return 1
+        bad, st = judge_reuse(c, rr)
+        print("replay loky reuse sequence:", json.dumps(c), "=>", bad or "property holds", st)
+        return 1 if bad else 0
     if c["mode"] == "nest":
         lv = [tuple(l) for l in c["levels"]]
         rr = run_tree(ctx, 1, lv)
